@@ -48,8 +48,9 @@ type Store struct {
 	OnCommit func(w Write, n int)
 	// BeforeCommit is called after f ran, just before the commit; returning false drops the write (crash before commit).
 	BeforeCommit func(writer string, n int) bool
-	Observe      func(w Write) // called with the store locked, for bookkeeping only
-	Conflicts    bool          // offer "the first attempt conflicts and f is re-run" as an environment choice
+	LastIn       map[string]interface{} // per writer: deep copy of the value its CAS function was last applied to
+	Observe      func(w Write)          // called with the store locked, for bookkeeping only
+	Conflicts    bool                   // offer "the first attempt conflicts and f is re-run" as an environment choice
 	commits      map[string]int
 }
 
@@ -57,7 +58,7 @@ var ErrInjected = errors.New("injected KV fault")
 
 func NewStore() *Store {
 	return &Store{codec: map[string]codec.Codec{}, data: map[string][]byte{}, FailCAS: map[string]func(int) bool{}, FailGet: map[string]func(int) bool{},
-		Dead: map[string]bool{}, casCount: map[string]int{}, getCount: map[string]int{}, commits: map[string]int{}}
+		LastIn: map[string]interface{}{}, Dead: map[string]bool{}, casCount: map[string]int{}, getCount: map[string]int{}, commits: map[string]int{}}
 }
 
 func (s *Store) SetCodec(key string, c codec.Codec) { s.codec[key] = c }
@@ -160,6 +161,7 @@ func (v *view) CAS(ctx context.Context, key string, f func(in interface{}) (out 
 		}
 		in := v.s.decode(key)
 		inCopy := v.s.decode(key)
+		v.s.LastIn[v.w] = v.s.decode(key)
 		v.s.mu.Unlock()
 		out, _, err := f(in)
 		if err != nil {
